@@ -470,6 +470,19 @@ def svalueTrace (w : World) (m : Machine) : List TraceEnt :=
     let fl := fileLine w r
     ⟨fnOf w e r, r.prog, r.ob, fl.1, fl.2⟩
 
+/-- efun `call_stack`: item `i` is about control stack element `csp - i`; its program / object are the live registers for
+    `i = 0` and those saved in element `csp - i + 1` otherwise (`(csp - i + 1)->prog`), its function is looked up in that
+    program.  The list of (element, registers) pairs, innermost first. -/
+def callFrames (m : Machine) : List (CsEntry × Regs) :=
+  m.cs.reverse.zip (m.cur :: m.cs.reverse.map fun e => ⟨e.prog, e.ob, e.pc⟩)
+
+/-- `call_stack (2)`: function names (`CATCH`, `<function>` for the other frame kinds) -/
+def callStackFns (w : World) (m : Machine) : List String := (callFrames m).map fun (e, r) => fnOf w e r
+/-- `call_stack (0)`: program names with a leading slash -/
+def callStackProgs (m : Machine) : List String := (callFrames m).map fun (_, r) => "/" ++ r.prog
+/-- `call_stack (1)`: objects -/
+def callStackObs (m : Machine) : List String := (callFrames m).map fun (_, r) => r.ob
+
 /-- the mapping `mudlib_error_handler` hands to the master -/
 structure ErrInfo where
   file : String
